@@ -15,6 +15,7 @@ import (
 	"time"
 	"unicode/utf8"
 
+	"github.com/hashicorp/memberlist"
 	"github.com/hashicorp/serf/cmd/serf/command/agent"
 	"github.com/hashicorp/serf/serf"
 )
@@ -340,7 +341,8 @@ func genC25(seed uint64, tier string) *Case {
 	filters := []string{"*", "user", "user:deploy", "member-join", "member-join,user:deploy", "query", "query:q1", "member-leave,member-failed",
 		"user,user:deploy", "*,user", "query,query:q1", "member-join,*",
 		// (names may contain the separator: everything after the first colon is the name)
-		"user:app:deploy", "query:app:deploy,user:app"}
+		"user:app:deploy", "query:app:deploy,user:app",
+		"member-reap", "member-update,member-reap", "member-failed,member-leave,member-update"}
 	n := 6 + g.Intn(30)
 	for i := 0; i < n; i++ {
 		switch x := g.Intn(20); {
@@ -357,7 +359,7 @@ func genC25(seed uint64, tier string) *Case {
 			}
 			c.Steps = append(c.Steps, Step{Op: "stop", K: g.Intn(4)})
 		case x < 12:
-			c.Steps = append(c.Steps, Step{Op: "ev", S: []string{"user", "user", "member", "query"}[g.Intn(4)], T: []string{"deploy", "other", "q1", "q2", "app:deploy", "app"}[g.Intn(6)]})
+			c.Steps = append(c.Steps, Step{Op: "ev", S: []string{"user", "user", "member", "query", "member", "member-failed", "member-update", "member-reap"}[g.Intn(8)], T: []string{"deploy", "other", "q1", "q2", "app:deploy", "app"}[g.Intn(6)]})
 		case x < 15:
 			c.Steps = append(c.Steps, Step{Op: "reply", K: g.Intn(4), S: []string{"ack", "resp"}[g.Intn(2)], T: []string{"n1", "n2", "n3"}[g.Intn(3)]})
 		case x < 18:
@@ -465,6 +467,8 @@ func execC25(r *Run) {
 	var queries []*c25Query
 	evLT := uint64(100)
 	ghostN := 0
+	var ghostsUp, ghostsDown []*memberlist.Node
+	memLT := uint64(5000)
 	// account distributes newly received records.
 	account := func() {
 		recs := cl.take(&cursor)
@@ -533,29 +537,57 @@ func execC25(r *Run) {
 	}
 	emit := func(kind, name string) {
 		// generate a serf event through the node's delegate and note which live streams must see it
-		sig := ""
+		type evSig struct{ kind, sig string }
+		var out []evSig
+		// the other member events happen to ghosts that joined earlier: a failure, a tags update,
+		// and a pruning force-leave of a failed member (member-leave, then member-reap); with
+		// no suitable ghost the step is a join
+		if kind == "member-failed" && len(ghostsUp) == 0 || kind == "member-update" && len(ghostsUp) == 0 || kind == "member-reap" && len(ghostsDown) == 0 {
+			kind = "member"
+		}
 		switch kind {
 		case "user":
 			evLT++
 			nd.Del.NotifyMsg(wEnc(mtUserEvent, &wUserEvent{LTime: evLT, Name: name, Payload: []byte("p")}))
-			sig = "user:" + name
+			out = append(out, evSig{"user", "user:" + name})
 		case "query":
 			evLT++
 			nd.Del.NotifyMsg(wEnc(mtQuery, &wQuery{LTime: evLT, ID: uint32(evLT), Addr: net.ParseIP(c.Nodes[1].IP).To4(), Port: 7946, SourceNode: "n1",
 				Timeout: time.Second, Name: name, Payload: []byte("p")}))
-			sig = "query:" + name
+			out = append(out, evSig{"query", "query:" + name})
 		case "member":
 			ghostN++
 			gn := ghostNode(10 + ghostN)
 			nd.conf().Events.NotifyJoin(gn)
-			kind = "member-join"
-			sig = "member-join:" + gn.Name
+			ghostsUp = append(ghostsUp, gn)
+			out = append(out, evSig{"member-join", "member-join:" + gn.Name})
+		case "member-failed":
+			gn := ghostsUp[0]
+			ghostsUp, ghostsDown = ghostsUp[1:], append(ghostsDown, gn)
+			nd.conf().Events.NotifyLeave(gn)
+			out = append(out, evSig{"member-failed", "member-failed:" + gn.Name})
+			r.Fault("member-failed-event")
+		case "member-update":
+			gn := ghostsUp[len(ghostsUp)-1]
+			gn.Meta = []byte(fmt.Sprintf("ghost%d", evLT))
+			nd.conf().Events.NotifyUpdate(gn)
+			out = append(out, evSig{"member-update", "member-update:" + gn.Name})
+			r.Fault("member-update-event")
+		case "member-reap":
+			gn := ghostsDown[0]
+			ghostsDown = ghostsDown[1:]
+			memLT++
+			nd.Del.NotifyMsg(wEnc(mtLeave, &wLeave{LTime: memLT, Node: gn.Name, Prune: true}))
+			out = append(out, evSig{"member-leave", "member-leave:" + gn.Name}, evSig{"member-reap", "member-reap:" + gn.Name})
+			r.Fault("member-pruned-and-reaped")
 		}
 		c.Wait()
 		c.Bag = nil
-		for _, st := range streams {
-			if !st.stopped && filterMatches(st.filter, kind, name) {
-				st.want = append(st.want, sig)
+		for _, o := range out {
+			for _, st := range streams {
+				if !st.stopped && filterMatches(st.filter, o.kind, name) {
+					st.want = append(st.want, o.sig)
+				}
 			}
 		}
 	}
